@@ -93,7 +93,9 @@ struct H {
     int e;
   };
   static std::vector<Mat> materials() {
-    std::vector<double> nus = {0, 0x1p-40, 0x1p-20, 0.01, 0.1, 0.25, 0.3, 0.4, 0.45, 0.49, 0.499, 0.49999, 0.5 - 0x1p-20};
+    std::vector<double> nus = {0, 0x1p-40, 0x1p-20, 0.01, 0.1, 0.25, 0.3, 0.4, 0.45, 0.49, 0.499, 0.49999, 0.5 - 0x1p-20,
+                               // nearly incompressible (soft gels, K/mu ~ 1e7..1e12): still inside [0, 0.5) in the numeric type
+                               0.5 - 0x1p-24, 0.5 - 0x1p-30, 0.5 - 0x1p-40};
     std::vector<int> es = {-30, -8, 0, 11, 37};
     if (sizeof(T) == 4) es = {-15, -8, 0, 11, 15};
     std::vector<double> ms = {1, 1.1, 1.7};
@@ -106,6 +108,7 @@ struct H {
         for (double mm : ms) {
           const T nut = (T)nu;
           if (nu != 0 && nut == 0) continue;
+          if (!(nut < (T)0.5)) continue;  // rounds to 0.5 in this type: not an admissible material
           const T mu = (T)std::ldexp(mm, e);
           const f128 laq = 2 * (f128)mu * (f128)nut / (1 - 2 * (f128)nut);
           out.push_back({mu, (T)laq, nu, e});
@@ -114,7 +117,7 @@ struct H {
   }
   static std::string nukey(double nu) {
     char b[32];
-    std::snprintf(b, sizeof b, "%.6g", nu);
+    std::snprintf(b, sizeof b, "%.12g", nu);
     return b;
   }
 
